@@ -54,6 +54,8 @@ def jobs(tier, seed):
     out.append({'fn': 'derive_then_divide', 'cfg': {}})
     out.append({'fn': 'noref_converter_sequences', 'cfg': {}})
     out.append({'fn': 'power_sequences', 'cfg': {}})
+    out.append({'fn': 'quantized_mode_sequences', 'cfg': {}})
+    out.append({'fn': 'money_quotient_after_update', 'cfg': {}})
     out.append({'fn': 'interleave', 'cfg': {'first': 5, 'depth': 1, 'canary': True}, 'canary': True})
     LAST_CONFIG_INFO.clear()
     LAST_CONFIG_INFO.update({'declarations': len(DECLS), 'probes': len(PROBES), 'depth': depth,
@@ -370,6 +372,72 @@ def power_sequences(E, cfg):
     defined('first', A2)
     bad_exponent('after-int')
     defined('second', A2)
+
+
+def quantized_mode_sequences(E, cfg):
+    """a product / quotient / power with a quantized result evaluated repeatedly while the default rounding mode
+    changes in between: each evaluation follows the mode active then (no result is carried over)"""
+    from decimalfp import Decimal
+    from quantity import Quantity
+    import quantity.predefined as pre
+    a = E.rational('a', 'dec')
+    modes = E.choice('modes', [('ROUND_HALF_EVEN', 'ROUND_HALF_UP'), ('ROUND_DOWN', 'ROUND_UP'), ('ROUND_CEILING', 'ROUND_FLOOR')])
+    op = E.choice('op', ['throughput*duration', 'duration*throughput'])
+    if op == 'user-square':
+        L = C.mk_cls('HLen', ref_unit_symbol='hl0')
+        A = C.mk_cls('HArea', define_as=L ** 2, ref_unit_symbol='ha0', quantum=Decimal('0.5'))
+        fn = lambda: Quantity(a, L.ref_unit) ** 2
+        exact, qu, unit = a * a, Fraction(1, 2), A.ref_unit
+        a_ = None
+    elif op == 'volume/number':
+        fn = lambda: Quantity(a, pre.KILOBYTE) / 3
+        exact, qu, unit = None, Fraction(1, 8000), pre.KILOBYTE
+    else:
+        tp, du = Quantity(a, pre.KILOBIT_PER_SECOND), Quantity(3, pre.SECOND)
+        fn = (lambda: tp * du) if op == 'throughput*duration' else (lambda: du * tp)
+        exact, qu, unit = 3 * a, Fraction(1, 1000), pre.KILOBIT
+    for i, mname in enumerate((modes[0], modes[1], modes[0])):
+        C.set_default_mode(mname)
+        r = fn()
+        if op == 'volume/number':
+            ex = Quantity(a, pre.KILOBYTE).amount / 3          # the held (already rounded) operand divided exactly
+        else:
+            ex = exact
+        E.check(r.unit is unit or C.scale(r.unit) == C.scale(unit), 'mode-sequence-result-unit', key='hist:mode-seq:unit', info=[op, i])
+        q_ = qu * C.scale(unit) / C.scale(r.unit)
+        E.check(E.is_rounding(C.mode(mname), r.amount / q_, ex * C.scale(unit) / C.scale(r.unit) / q_),
+                'mode-sequence-result-follows-active-mode', key='hist:mode-seq:value', info=[op, i, mname])
+
+
+def money_quotient_after_update(E, cfg):
+    """quotients of money amounts in two currencies go through the registered converter: after its rates were updated
+    the same quotient is computed from the new rates (nothing kept from the earlier evaluation)"""
+    from decimalfp import Decimal
+    from quantity.money import Money, MoneyConverter
+    eur, usd, hkd = (Money.register_currency(c) for c in ('EUR', 'USD', 'HKD'))
+    a = E.rational('a', 'dec')
+    b = E.rational('b', 'dec')
+    ma, mb = Money(a, usd), Money(b, hkd)
+    E.assume(mb.amount != 0)
+    conv = MoneyConverter(eur)
+    conv.update(None, [(usd, Decimal('1.25'), 1), (hkd, Decimal(10), 1)])
+    order = E.choice('order', ['usd/hkd', 'hkd/usd', 'usd/eur'])
+    with conv:
+        for i, (r_usd, r_hkd) in enumerate((('1.25', '10'), ('1.5', '10'), ('1.5', '7.5'), ('1.25', '10'))):
+            if i:
+                conv.update(None, [(usd, Decimal(r_usd), 1), (hkd, Decimal(r_hkd), 1)])
+            from .c11 import _own_rate            # cross rates are exchange rates in normal form (six decimals)
+            ru, rh = Fraction(r_usd), Fraction(r_hkd)
+            if order == 'usd/hkd':
+                q, exact = ma / mb, ma.amount / (mb.amount * _own_rate(ru / rh))      # b HKD in USD: b * (USD per HKD)
+            elif order == 'hkd/usd':
+                E.assume(ma.amount != 0)
+                q, exact = mb / ma, mb.amount / (ma.amount * _own_rate(rh / ru))
+            else:
+                me = Money(b, eur)
+                E.assume(me.amount != 0)
+                q, exact = ma / me, ma.amount / (me.amount * ru)
+            E.check(q == exact, 'money-quotient-follows-current-rates', key='hist:money-quotient-after-update', info=[order, i])
 
 
 def derive_then_divide(E, cfg):
